@@ -143,7 +143,7 @@ func (fa *fileAnalysis) engine(fn *ssa.Function) *an.Facts {
 			}
 		case *ssa.Call:
 			// a coalescing helper (`orDefault(own, inherited, fallback)`) that never returns nil
-			if cs := coalesceOf(an.Callee(v)); cs != nil && cs.nonNil() {
+			if cs := coalesceOf(an.Callee(v)); cs != nil && cs.nonNilAt(v) {
 				cur["nn:"+path] = true
 			}
 		case *ssa.UnOp:
